@@ -24,7 +24,7 @@ def nontrivial(pid, case, out):
         if op in ('QTo', 'QToInplace'):
             return case['u'] != case['a'][3]
         if op == 'QCmp':
-            return case['b'] is not None and case['b'][0] == 'Q' and case['b'][3] != case['a'][3]
+            return case['b'] is not None and case['b'][0] == 'Q' and case['a'][0] == 'Q' and case['b'][3] != case['a'][3]
         return False
     if pid == 'C06':
         return op in ('QAdd', 'QSub', 'QMul', 'QDiv', 'QRMul', 'QAbs', 'QNeg')
